@@ -1,14 +1,17 @@
 #!/bin/bash
-# Applies each behaviour-preserving change under /verif/benign to /repo, runs every contract check (one govc run over all
-# functions, quick tier) and reports the obligations that fail beyond the known findings; then reverts. A non-empty list
-# is a false alarm of the machinery.
+# Applies each behaviour-preserving change under /verif/benign to a scratch worktree of /repo (HEAD), runs every contract
+# check on it (one govc run over all functions, quick tier) and reports the obligations that fail beyond the known
+# findings. A non-empty list is a false alarm of the machinery. The worktree is removed at the end.
 cd /verif
-[ -z "$(git -C /repo status --porcelain)" ] || { echo "/repo not clean"; exit 2; }
 names=("$@"); [ ${#names[@]} -eq 0 ] && names=($(ls benign))
+wt=/tmp/benignwt.$$
+git -C /repo worktree add -q --detach $wt HEAD || exit 2
+trap 'git -C /repo worktree remove --force $wt; git -C /repo worktree prune' EXIT
+export GOFLAGS=-mod=mod GOPROXY=off GOSUMDB=off GOTOOLCHAIN=local CGO_ENABLED=0
 for n in "${names[@]}"; do
-  if ! git -C /repo apply /verif/benign/$n/patch.diff 2>/dev/null; then echo "$n: patch does not apply"; continue; fi
-  if ! (cd /repo && GOFLAGS=-mod=mod GOPROXY=off GOSUMDB=off GOTOOLCHAIN=local go build ./... 2>/dev/null); then echo "$n: does not build"; git -C /repo checkout -- .; git -C /repo clean -fdq; continue; fi
-  out=$(./bin/govc 2>&1 | grep '^FAIL' | grep -v 'default-kept-on-failure' | awk '{print $2}' | tr '\n' ' ')
+  if ! git -C $wt apply /verif/benign/$n/patch.diff 2>/dev/null; then echo "$n: patch does not apply"; continue; fi
+  if ! (cd $wt && go build ./... 2>/dev/null); then echo "$n: does not build"; git -C $wt checkout -- .; git -C $wt clean -fdq; continue; fi
+  out=$(./bin/govc -repo $wt 2>&1 | grep '^FAIL' | grep -v 'default-kept-on-failure' | awk '{print $2}' | tr '\n' ' ')
   if [ -z "$out" ]; then echo "$n: quiet"; else echo "$n: FALSE-ALARM $out"; fi
-  git -C /repo checkout -- .; git -C /repo clean -fdq
+  git -C $wt checkout -- .; git -C $wt clean -fdq
 done
